@@ -50,9 +50,17 @@ func openStore(driver string) store.Store {
 	return nil
 }
 
+// handed is a value the store handed out, with what it was worth at the time
+type handed struct {
+	bal  *store.Balance
+	node *store.Node
+	was  string
+}
+
 type storeComp struct {
 	s        store.Store
 	poisoned bool
+	snaps    []handed // every balance / node record handed out so far in this case (C10: snapshots never change)
 	// every timestamp fed to the store; used to detect (and skip) the rare op
 	// whose outcome depends on which instant inside the call the driver read
 	// the clock
@@ -71,6 +79,32 @@ func (c *storeComp) Reset(opts map[string]string, base int64) {
 	c.s = openStore(opts["driver"])
 	c.poisoned = false
 	c.times = c.times[:0]
+	c.snaps = nil
+}
+
+// keepBal / keepNode remember a value the store returned; checkSnaps re-reads all of them later.
+func (c *storeComp) keepBal(b store.Balance) {
+	cp := b
+	c.snaps = append(c.snaps, handed{bal: &cp, was: balStr(b)})
+}
+
+func (c *storeComp) keepNode(n *store.Node) {
+	c.snaps = append(c.snaps, handed{node: n, was: nodeStr(n)})
+}
+
+func (c *storeComp) checkSnaps() string {
+	for _, h := range c.snaps {
+		now := ""
+		if h.bal != nil {
+			now = balStr(*h.bal)
+		} else {
+			now = nodeStr(h.node)
+		}
+		if now != h.was {
+			return fmt.Sprintf("snapshot-mutated was=%s now=%s", strings.Replace(h.was, " ", "/", -1), strings.Replace(now, " ", "/", -1))
+		}
+	}
+	return ""
 }
 
 // sensitive reports whether some known timestamp + window falls inside [t0,t1]
@@ -194,6 +228,11 @@ func (c *storeComp) Exec(t []string) (extra []string, out string, eff bool) {
 		// the op ran but its outcome is clock-sensitive: blank it and the rest of the case
 		return []string{"#skipped"}, "noop", false
 	}
+	if v := c.checkSnaps(); v != "" {
+		// a value handed out earlier has changed under the caller's feet
+		out = v
+		c.snaps = nil
+	}
 	return
 }
 
@@ -223,6 +262,7 @@ func (c *storeComp) exec(t []string) (extra []string, out string, eff bool) {
 		if err != nil {
 			return e(err)
 		}
+		c.keepNode(n)
 		return nil, "ok " + nodeStr(n), false
 	case "unp":
 		id := store.NodeID(Untok(t[1]))
@@ -268,6 +308,7 @@ func (c *storeComp) exec(t []string) (extra []string, out string, eff bool) {
 		if err != nil {
 			return e(err)
 		}
+		c.keepBal(b)
 		return nil, "ok " + balStr(b), false
 	case "addnb":
 		if err := s.AddNodeBalance(store.NodeID(Untok(t[1])), mustBig(t[2])); err != nil {
@@ -279,6 +320,7 @@ func (c *storeComp) exec(t []string) (extra []string, out string, eff bool) {
 		if err != nil {
 			return e(err)
 		}
+		c.keepBal(b)
 		return nil, "ok " + balStr(b), false
 	case "addab":
 		if err := s.AddAccountBalance(store.Account(Untok(t[1])), mustBig(t[2])); err != nil {
